@@ -1,7 +1,39 @@
-(* family 5: stub, to be filled *)
+(* family 5: PUS telecommands *)
 From Coq Require Import ZArith List Bool.
-From SP Require Import Base.Result Base.Bytes Run.Marshal.
+From SP Require Import Base.Result Base.Bytes Base.Crc16 Run.Marshal Run.DispSph Model.SpacePacket Model.PusTc Spec.PusSpec.
 Import ListNotations.
 Open Scope Z_scope.
 
-Definition run_tc (op : Z) (a : args) : args := [[1; 97]].
+Definition tc_fields (t : tc) : args :=
+  [ sph_fields (tc_sph t);
+    [tcs_service (tc_sec t); tcs_subservice (tc_sec t); tcs_source_id (tc_sec t); tcs_ack (tc_sec t)];
+    tc_app t; of_opt_bytes (tc_crc t); [tc_packet_len t] ].
+
+(* args: [service; subservice; apid; seq; source_id; ack] [app_data] *)
+Definition tc_of_args (a : args) : res tc :=
+  tc_new (int 0 0 a) (int 0 1 a) (int 0 2 a) (lst 1 a) (int 0 3 a) (int 0 4 a) (int 0 5 a).
+
+Definition run_tc (op : Z) (a : args) : args :=
+  match op with
+  | 500 => ret tc_fields (tc_of_args a)
+  | 501 => ret (fun r => [fst r; [tc_packet_len (snd r)]]) (do t <- tc_of_args a; tc_pack t)
+  | 502 => ret tc_fields (tc_unpack (lst 0 a))
+  | 503 => ret (fun r => [fst r]) (do t <- tc_unpack (lst 0 a); tc_pack t)
+  | 504 => ret (fun b => [b]) (do t <- tc_of_args a; tc_to_space_packet_pack t)
+  (* new -> pack -> unpack -> equality with the original, fields of the decoded one *)
+  | 505 => ret (fun r => [[b2z (fst r)]] ++ tc_fields (snd r))
+             (do t <- tc_of_args a; do p <- tc_pack t; do u <- tc_unpack (fst p);
+              Ok (tc_eqb u t && tc_eqb t u, u))
+  | 506 => [[0]; [b2z (check_pus_crc (lst 0 a))]]
+  (* setter history: new, then app_data := lst 2, then pack; reports packet_len and octets *)
+  | 507 => ret (fun r => [fst r; [tc_packet_len (snd r)]])
+             (do t <- tc_of_args a; tc_pack (tc_set_app_data t (lst 2 a)))
+  | 508 => ret (fun s => [[tcs_service s; tcs_subservice s; tcs_source_id s; tcs_ack s]])
+             (tcsec_unpack (lst 0 a))
+  (* pack twice: second call with recalc_crc=False *)
+  | 509 => ret (fun r => [fst r])
+             (do t <- tc_of_args a; do p <- tc_pack t; tc_pack_norecalc (snd p))
+  (* Spec *)
+  | 550 => [[0]; tc_layout (int 0 0 a) (int 0 1 a) (int 0 2 a) (int 0 3 a) (int 0 4 a) (int 0 5 a) (lst 1 a)]
+  | _ => [[1; 97]]
+  end.
